@@ -1,4 +1,4 @@
-"""C11 - readable output reads back to the same value (.w/.rs, Format/Form)."""
+"""C11 - readable output reads back to the same value (.w/.rs, .w/.r through file channels, Format/Form)."""
 import random
 
 from vf.core import kl
@@ -13,7 +13,7 @@ RULE = ("each case is one data value built through the Python API (klong['v']=..
         "produced text and the read returned (round trip actually completed or was judged).")
 ASSUMPTIONS = ["CPython float repr is the shortest round-tripping decimal", "inf/nan are outside the reader's domain",
                "values are built with the backend's own kg_asarray, as the reader builds them"]
-MIN_COUNTS = {"nontrivial": 300, "form_format_checked": 40, "roundtrips": 300}
+MIN_COUNTS = {"nontrivial": 300, "form_format_checked": 40, "roundtrips": 300, "channel_roundtrips": 600}
 CASE_TIMEOUT = 60
 
 HOSTILE = ['"', ' ', '\n', '[', ']', ':', '"', 'a', '0', 'c', '{', '}', ';', '\t', "'", '\\', '-', 'e', '.']
@@ -86,7 +86,16 @@ def cases(tier, seed):
 
 
 def init_shard(tier, seed):
-    return {"k": kl.new()}
+    import os, tempfile
+    from vf.core import env
+    d = tempfile.mkdtemp(prefix="c11-", dir=env.scratch_root())
+    return {"k": kl.new(), "dir": d}
+
+
+def finish_shard(ctx):
+    import shutil
+    shutil.rmtree(ctx["dir"], ignore_errors=True)
+    return {}
 
 
 def _roundtrip(k, c):
@@ -133,6 +142,53 @@ def _roundtrip(k, c):
     return "ok", {"text": text}
 
 
+def _channel_roundtrip(ctx, k, c, sep):
+    """v and a sentinel written to a file through an output channel (.oc/.tc/.w), read back through an input
+    channel with .r twice: the first object must match v, the second must be the sentinel (the reader stopped
+    exactly after the first object)."""
+    import os
+    from vf.core import env
+    path = os.path.join(ctx["dir"], "chan.txt")
+    k["v"] = kl.topy(c, k)
+    k["p"] = path
+    k["s"] = sep
+    saved = (k[".sys.cout"], k[".sys.cin"])
+    try:
+        return _channel_roundtrip2(k, c, path)
+    finally:
+        k[".sys.cout"], k[".sys.cin"] = saved
+
+
+def _channel_roundtrip2(k, c, path):
+    for t in ("o::.oc(p)", ".tc(o)", ".w(v)", ".d(s)", ".w(-4242)", ".cc(o)"):
+        r = kl.ev(k, t)
+        if r[0] != "ok":
+            kl.ev(k, ".cc(o)")
+            return "raises:chan-write:" + r[1], {"stmt": t, "msg": r[2]}
+    try:
+        text = open(path, encoding="utf8").read()
+    except OSError as e:
+        return "skip", {"io": repr(e)}
+    out = {}
+    st = "ok"
+    for t in ("i::.ic(p)", ".fc(i)", "w::.r()", "q::.r()"):
+        r = kl.ev(k, t)
+        if r[0] != "ok":
+            st = "raises:chan-read:" + r[1]
+            out = {"stmt": t, "msg": r[2], "text": text}
+            break
+    kl.ev(k, ".cc(i)")
+    if st != "ok":
+        return st, out
+    back, q = canon(k["w"]), canon(k["q"])
+    d = same(back, c, "match")
+    if d:
+        return "diff:chan-value:" + d, {"text": text, "back": brief(back)}
+    if q != ["I", -4242]:
+        return "diff:chan-position", {"text": text, "second_object": brief(q)}
+    return "ok", {"text": text}
+
+
 def _form_format(k, c):
     v = kl.topy(c, k)
     k["v"] = v
@@ -146,6 +202,15 @@ def _form_format(k, c):
     if m[0] != "ok" or canon(m[1]) != ["I", 1] or d:
         return "diff:form:" + (d or "klong-match-0"), {"back": brief(back)}
     return "ok", {}
+
+
+def _blame_chan(ctx, k, c, status, sep):
+    subs = c[1] if c[0] == "L" else [x for kv in c[1] for x in kv]
+    for x in subs:
+        st, _ = _channel_roundtrip(ctx, k, x, sep)
+        if st == status:
+            return _blame_chan(ctx, k, x, status, sep) if x[0] in ("L", "D") else _features(x)
+    return _features(c)
 
 
 def _blame(k, c, status):
@@ -180,6 +245,15 @@ def run_case(ctx, c):
         where = _blame(k, c, st)
         res["violations"].append({"sig": "roundtrip|%s|%s" % (st, where),
                                   "what": "%s for %s" % (st, brief(c)), "detail": det})
+    if c[0] != "D" or True:
+        for sep, sname in ((" ", "blank"), ("\n", "newline")):
+            st3, det3 = _channel_roundtrip(ctx, k, c, sep)
+            if st3 == "skip":
+                continue
+            res["counters"]["channel_roundtrips"] = res["counters"].get("channel_roundtrips", 0) + 1
+            if st3 != "ok":
+                res["violations"].append({"sig": "channel|%s|%s|%s" % (sname, st3, _features(c) if c[0] not in ("L", "D") else _blame_chan(ctx, k, c, st3, sep)),
+                                          "what": ".w to a file then .r: %s for %s" % (st3, brief(c)), "detail": det3})
     if c[0] in ("I", "R", "C", "S", "Y"):
         st2, det2 = _form_format(k, c)
         res["counters"]["form_format_checked"] = 1
